@@ -7,7 +7,7 @@ protection, comments)."""
 from . import common, gen, hist, histcheck
 from .common import hexs
 
-NEEDED = ["adfEntry2CacheEntry.len", "adfPutCacheEntry.len"]
+NEEDED = ["adfEntry2CacheEntry.len", "adfPutCacheEntry.len", "adfPutCacheEntry", "adfGetCacheEntry"]
 
 
 def cache_history(ctx):
@@ -82,14 +82,71 @@ def block_sweep(ctx):
     return L, 0, 1760, {"flavour": flav, "block_emptied": blk}
 
 
+def codec_correspondence(ctx):
+    """the record codec the C07 theorems are about: adfPutCacheEntry / adfGetCacheEntry compiled from the C source vs the Gallina
+    functions regenerated from it (extracted), on the same inputs - valid records at every alignment of the 488-byte record
+    area, records that end exactly at / one byte past the area, and arbitrary bytes with offsets around the acceptance bounds"""
+    rng = ctx.rng
+
+    def hx(b):
+        return b.hex() if b else "-"
+    lines = []
+    nput = 400 if ctx.tier == "quick" else 20000
+    for i in range(nput):
+        recs = bytes(rng.randrange(256) for _ in range(488)) if rng.random() < 0.7 else bytes(488)
+        nl = rng.choice([1, 1, 2, 7, 16, 29, 30])
+        cl = rng.choice([0, 0, 1, 22, 78, 79])
+        nm = bytes(rng.randrange(1, 256) for _ in range(nl))
+        cm = bytes(rng.randrange(1, 256) for _ in range(cl))
+        ln = 25 + nl + cl
+        ln += ln & 1
+        p = rng.choice([0, 2, 40, 488 - ln, 488 - ln - 2, max(0, 488 - ln - 40), rng.randrange(0, 488 - ln + 1) & ~1])
+        p = max(0, p)
+        lines.append("adfPutCacheEntry %d %d %d %d %d %d %d %d %s %s %s" % (
+            p, rng.choice([0, 1, 880, 2 ** 31, 2 ** 32 - 1, rng.randrange(2 ** 32)]), rng.randrange(2 ** 32), rng.randrange(2 ** 32),
+            rng.randrange(65536), rng.randrange(65536), rng.randrange(65536), rng.choice([-3, 2, -4, 4, 3, -128, 127, 0]), hx(nm), hx(cm), recs.hex()))
+    nget = 600 if ctx.tier == "quick" else 30000
+    for i in range(nget):
+        recs = bytearray(rng.randrange(256) for _ in range(488))
+        p = rng.choice([-2, -1, 0, 2, 100, 440, 460, 461, 462, 463, 464, 486, 487, 488, 600, rng.randrange(0, 470)])
+        if 0 <= p <= 462 and rng.random() < 0.7:
+            # plausible lengths at the acceptance edges
+            nl = rng.choice([0, 1, 30, 31, 255, rng.randrange(1, 31), rng.randrange(1, 31), rng.randrange(1, 31), rng.randrange(1, 31)])
+            recs[p + 23] = nl
+            if p + 24 + nl < 488:
+                room = 488 - (p + 25 + nl)
+                recs[p + 24 + nl] = rng.choice([0, 1, 79, 80, 255, max(0, min(255, room)), max(0, min(255, room + 1)), max(0, min(79, room)), rng.randrange(0, max(1, min(80, room + 1)))])
+        lines.append("adfGetCacheEntry %d %s" % (p, bytes(recs).hex()))
+    text = "\n".join(lines) + "\n"
+    rc, cout, _ = common.run_lines(ctx.bin("leafh"), text)
+    _, mout, _ = common.run_lines(ctx.ocaml("leafm"), text)
+    cres, mres = cout.splitlines(), mout.splitlines()
+    if len(cres) != len(lines) or len(mres) != len(lines):
+        ctx.fail("corr", "record codec correspondence: the two sides answered %d / %d of %d calls" % (len(cres), len(mres), len(lines)), {"first_call": lines[0][:200]})
+        return
+    acc = 0
+    for ln_, a, b in zip(lines, cres, mres):
+        ctx.count(("codec", ln_[:120], hash(ln_)))
+        ctx.bump("codec:" + ln_.split()[0])
+        ra, rb = a.split(" = ", 1)[-1], b.split(" = ", 1)[-1]
+        if ln_.startswith("adfGet") and ra.split()[0] == "0":
+            acc += 1
+        if ra != rb:
+            ctx.fail("corr", "generated Gallina and compiled C disagree on the cache record codec", {"call": ln_[:300]}, expected=rb[:300], actual=ra[:300], stream="leaf")
+            if len(ctx.failures) > 3:
+                break
+    ctx.bump("codec:records_accepted_by_reader", acc)
+
+
 def run(ctx):
     proof = common.proof_status(ctx)
+    codec_correspondence(ctx)
     tf = common.translator_failures(ctx, NEEDED)
     if tf:
         proof["problems"].append("translator could not translate: %s" % tf)
     b = [("empty-a-block", block_sweep) for _ in range(4 if ctx.tier == "quick" else 40)]
     b += [("cache-stress", cache_history) for _ in range(24 if ctx.tier == "quick" else 500)]
-    rule = ("DIRCACHE volumes (flavours 4,5): directories grown to 8..45 entries with name lengths 4..30 (record lengths 30..134, blocks filled exactly / one past), "
+    rule = ("record codec: adfPutCacheEntry/adfGetCacheEntry compiled C vs regenerated Gallina on valid records at every alignment, records ending at / past the 488-byte area, arbitrary bytes at the acceptance bounds; DIRCACHE volumes (flavours 4,5): directories grown to 8..45 entries with name lengths 4..30 (record lengths 30..134, blocks filled exactly / one past), "
             "deletes at head/middle/tail, each block of a 3-block chain emptied record by record, renames to shorter/longer names, comments 0..79 bytes, size updates "
             "on flush; listing with useDirCache and decoder judgement at each dump; distinct = distinct script; non-trivial = chain of at least two cache blocks reached")
     nt = lambda L, r: sum(1 for l in L if l.startswith("open") or l.startswith("mkdir")) >= 12
